@@ -155,6 +155,7 @@ def build_reference(root: str) -> Dict:
     out["::writes"] = write_inventory(t)
     out["::defs"] = defs_inventory(t)
     out["::logs"] = log_inventory(t)
+    out["::handlers"] = handler_inventory(t)
     return out
 
 
@@ -566,4 +567,54 @@ def rule_LSI(tree: Tree, scope: Optional[List[Tuple[str, Optional[str]]]] = None
                               f"leaves the function at the log line and skips what follows it (state updates, the -a append of the record)", relpath))
     if n < (100 if scope is None else 1):
         raise AnalysisError(f"LSI: only {n} functions matched the reference log inventory")
+    return r
+
+
+# ------------------------------------------------------------------ HI: handler inventory
+def _catch_all_count(f: Func, tree: Tree, ref_funcs: Set[str], cg: CallGraph, seen: Optional[Set[str]] = None) -> int:
+    """catch-all handlers (`except:`, `except Exception`, `except BaseException`) that do not re-raise, in f and in the functions f calls that
+    the reference tree does not have (an extracted helper keeps the count)."""
+    from ..cfg import handler_catches_all, handler_reraises
+    seen = seen if seen is not None else set()
+    key = f"{f.module.relpath}::{f.qualname}"
+    if key in seen:
+        return 0
+    seen.add(key)
+    n = sum(1 for t in body_walk(f.node) if isinstance(t, ast.Try) for h in t.handlers if handler_catches_all(h) and not handler_reraises(h))
+    for cs in cg.sites.get(f, []):
+        for callee in cs.callees or []:
+            ck = f"{callee.module.relpath}::{callee.qualname}"
+            if ck not in ref_funcs:
+                n += _catch_all_count(callee, tree, ref_funcs, cg, seen)
+    return n
+
+
+def handler_inventory(tree: Tree, ref_funcs: Optional[Set[str]] = None) -> Dict[str, int]:
+    cg = CallGraph.of(tree)
+    allk = {f"{f.module.relpath}::{f.qualname}" for f in tree.all_funcs()}
+    rf = ref_funcs if ref_funcs is not None else allk
+    return {f"{f.module.relpath}::{f.qualname}": _catch_all_count(f, tree, rf, cg) for f in tree.all_funcs() if f.module.short not in SKIP_MODULES}
+
+
+def rule_HI(tree: Tree, scope: Optional[List[Tuple[str, Optional[str]]]] = None) -> RuleResult:
+    import re
+    r = RuleResult("HI", "handler inventory: no catch-all exception handler of an existing function was narrowed to named exception types, removed, or made to "
+                         "re-raise — the exceptions it no longer absorbs travel to an outer handler and skip the statements in between (state updates, clean-up, the rest of a batch)")
+    ref = _ref().get("::handlers")
+    if ref is None:
+        raise AnalysisError("vt/ref_guards.json has no handler inventory (regenerate with `python3 -m vt.canon /repo`)")
+    cur = handler_inventory(tree, set(ref))
+    n = 0
+    for fkey, cnt in sorted(cur.items()):
+        if fkey not in ref or not ref[fkey]:
+            continue
+        relpath, qn = fkey.split("::", 1)
+        if scope is not None and not any(f == relpath and (rx is None or re.fullmatch(rx, qn.split(".")[-1])) for f, rx in scope):
+            continue
+        n += 1
+        r.instances += 1
+        r.ob(cnt >= ref[fkey], Finding("HI", f"{fkey}:catch-all-handlers",
+                                       f"{qn}: {ref[fkey]} catch-all handler{'s' if ref[fkey] != 1 else ''} in the reference tree, {cnt} now (narrowed to named types, removed or re-raising): "
+                                       f"a fault the handler used to absorb at this point now leaves the function and skips what follows the call in its callers", relpath))
+    r.floor = 0
     return r
